@@ -840,6 +840,11 @@ class BatchCompletionCallBack(object):
 
         # Schedule the next batch of tasks.
         with self.parallel._lock:
+            if self.parallel._call_id != self.parallel_call_id:
+                # The call this batch belongs to is over and a new one has
+                # been issued on the same Parallel instance: its counters and
+                # its input iterator are not ours to touch.
+                return
             self.parallel.n_completed_tasks += self.batch_size
             self.parallel.print_progress()
             if self.parallel._original_iterator is not None:
